@@ -12,6 +12,7 @@ def H(name, module, module_path, shape="", tier="quick", timeout=300, env_stubbe
 
 
 PROPS = {}
+AG = "execution::aggregate_execution::verif_kani"
 
 # ------------------------------------------------------------------------------------------- C16
 _c16 = []
@@ -85,7 +86,10 @@ _C03_COST = {"c03_cmp_int_null_gt_le": 400, "c03_subscript_len1": 350, "c03_subs
              "c03_arith_mul_float_float": 300, "c03_arith_div_float_float": 400, "c03_fn_abs_int": 120}
 
 PROPS["C03"] = dict(
-    harnesses=[H(n, "execution", EX, shape=n[4:].replace("_", " "), tier="quick" if n in _c03_quick else "thorough", timeout=900, cost=_C03_COST.get(n, 60), solo=(n == "c03_subscript_len1")) for n in _c03_all],
+    harnesses=[H(n, "execution", EX, shape=n[4:].replace("_", " "), tier="quick" if n in _c03_quick else "thorough", timeout=900, cost=_C03_COST.get(n, 60), solo=(n == "c03_subscript_len1")) for n in _c03_all] + [
+        H("c03_cmpx_int_float_eq", "aggregate_execution", AG, shape="INT = REAL against the exact i64 / f64 order, full range", tier="quick", timeout=900, cost=300, env_stubbed=True),
+        H("c03_cmpx_float_int_gt", "aggregate_execution", AG, shape="REAL > INT against the exact i64 / f64 order, full range", tier="thorough", timeout=900, cost=300, env_stubbed=True),
+        H("c03_cmpx_int_float_lt", "aggregate_execution", AG, shape="INT < REAL against the exact i64 / f64 order, full range", tier="thorough", timeout=900, cost=300, env_stubbed=True)],
     functions=["ExpressionExecutionEngine::evaluate (src/execution/expression_execution.rs: Compare, NullableCompare, Arithmetic, UnaryArithmetic, BooleanOperation, In, Case, ArrayElementAccess, TypeConversion, FunctionCall abs/greatest/least/pow/array_length)",
                "Value::map_same_type / Value::map (src/model.rs)", "derived Value ordering as used by Compare",
                "SelectExecutionEngine::execute (src/execution/select_execution.rs): WHERE -> projection -> row assembly (c03_select_filter_*)"],
@@ -108,7 +112,6 @@ PROPS["C03"] = dict(
 )
 
 # ------------------------------------------------------------------------------------- C04 / C15
-AG = "execution::aggregate_execution::verif_kani"
 _fold = []
 for _k, _label in [("sum_int", "SUM over INT"), ("sum_float", "SUM over REAL"), ("avg_int", "AVG over INT"), ("avg_float", "AVG over REAL")]:
     for _pat, _pl in [("vvv", "no NULL"), ("nvv", "NULL arrives first"), ("vnv", "NULL in the middle"), ("nnn", "all NULL")]:
@@ -120,24 +123,46 @@ for _k in ["bool_and", "bool_or"]:
     for _pat, _pl in [("vvv", "no NULL"), ("nvv", "NULL arrives first"), ("nnn", "all NULL")]:
         _fold.append(("c04_fold_%s_%s" % (_k, _pat), "%s, 3 rows, %s" % (_k.upper(), _pl), "quick" if _pat == "nvv" else "thorough"))
 _fold += [("c04_fold_percentile_n1", "PERCENTILE(p) over 1 INT, every p in [0,1]", "quick"), ("c04_fold_percentile_all_null", "PERCENTILE over an all-NULL group", "quick")]
+# MIN / MAX through the real kernel fold_min_max (added with fix a2b5154)
+_minmax = []
+_MINMAX_QUICK = ("c04_minmax_min_int_vvv", "c04_minmax_max_int_nvv", "c04_minmax_max_bool_vnv", "c04_minmax_min_timestamp_vvv", "c04_minmax_max_text1_vvv", "c04_minmax_min_float_vvv", "c04_minmax_min_int_nnn", "c04_minmax_max_interval_vvv")
+for _t, _tl in [("int", "INT (any i64)"), ("float", "REAL (any f64 incl. NaN, -0.0, infinities)"), ("bool", "BOOLEAN"), ("timestamp", "TIMESTAMP (any instant within 2^40 s of the epoch, any offset)"), ("interval", "INTERVAL"), ("text1", "TEXT of 0..1 ASCII bytes")]:
+    for _m in ("min", "max"):
+        for _pat, _pl in [("vvv", "no NULL"), ("nvv", "NULL arrives first"), ("vnv", "NULL in the middle"), ("nnn", "all NULL")]:
+            _n = "c04_minmax_%s_%s_%s" % (_m, _t, _pat)
+            _minmax.append((_n, "%s over %s, 3 rows, %s" % (_m.upper(), _tl, _pl), "quick" if _n in _MINMAX_QUICK else "thorough"))
+# the real update_aggregate driver over the one-slot group table (added against seeded change C04-m3)
+_driver = [("c04_driver_min_int_null_last", "real update_aggregate (Min/Max arm): MIN over INT a, b and one NULL row arriving last", "thorough")]
+# not registered (kept in the harness file): the other c04_driver_* harnesses - SUM / AVG through the shared arm passed 6.5 GB / 600 s without a verdict
 _C15_QUICK = ("c04_fold_sum_int_nvv", "c04_fold_avg_int_vvv", "c04_fold_bool_and_nvv")
 _FOLD_FUNCS = ["GroupAggregator::default / update / update_value / is_null (src/execution/aggregate_execution.rs)",
-               "Value::modify_same_type_numeric_nullable, Value::map_numeric, Value::default_value (src/model.rs)", "slice sort of Vec<Value> (PERCENTILE)"]
+               "Value::modify_same_type_numeric_nullable, Value::map_numeric, Value::default_value (src/model.rs)", "slice sort of Vec<Value> (PERCENTILE)",
+               "fold_min_max (src/execution/aggregate_execution.rs; the MIN / MAX kernel) with the derived Value ordering it uses (c04_minmax_*)",
+               "AggregateExecutionEngine::update_aggregate, Min/Max arm and shared SUM/AVG/STDDEV/PERCENTILE/BOOL arm, with ExpressionExecutionEngine::evaluate of the argument (c04_driver_*)"]
 _FOLD_BOUNDS = {"group": "3 rows; NULL pattern concrete per harness (no NULL / NULL first / NULL in the middle / all NULL; REAL arguments: at least one NULL among the 3 rows), values symbolic", "INT / REAL values": "integers with |x| <= 2^20 (every sum and square exact in i64 and f64); overflow harnesses: full i64",
-                "percentile p": "every f64 in [0, 1]", "orders": "arrival order as given, reversed and rotated", "unwind": "2 (PERCENTILE: 4)"}
+                "percentile p": "every f64 in [0, 1]", "orders": "arrival order as given, reversed and rotated", "unwind": "2 (PERCENTILE: 4)",
+                "MIN / MAX (c04_minmax_*)": "3 rows of one type, NULL pattern concrete; INT any i64, REAL any f64 (NaN, -0.0, infinities), BOOLEAN, INTERVAL |t| < 2^50 s, TEXT of 0..1 ASCII bytes, TIMESTAMP any instant within 2^40 s of the epoch with any offset (oracle: chrono's DateTime order)",
+                "real driver (c04_driver_*)": "one group, one aggregate; rows: INT a, INT b (|x| <= 2^20) and one NULL row, in the orders a b NULL / NULL a b / a NULL b"}
 _FOLD_ASSUME = ["driver protocol copied from update_aggregate / execute_result: aggregator created lazily from the first arriving value, update() only for non-NULL values, NULL sets the cell only while is_null(), update_value() before a table is shown",
                 "the group table around the fold (BTreeMap<GroupKey, HashMap<usize,_>>, column-wise result assembly, HAVING) is outside the claim: symbolic execution of the engine does not conclude for two rows (DESIGN.md probe 14)"]
+_FOLD_ASSUME.append("c04_driver_*: AggregateExecutionEngine::get_group_value / get_group_aggregator are stubbed to hand out the single slot of the single group (created by the caller's default closure on first use, as get_group does); execute_result's update_value() step is applied as in the fold harnesses")
 _FOLD_OUT = ["VARIANCE / STDDEV and PERCENTILE over 2+ values: their harnesses (c04_fold_variance_*, c04_fold_percentile_n2/n3, kept in /verif/kani/aggregate_execution.rs) do not conclude in 15 min even with the accumulators as the only assertion and std's sort stubbed",
-             "one row per group / group order / no cell from another group (group table)", "COUNT, COUNT(DISTINCT), MIN, MAX, ARRAY_AGG, STRING_AGG (folded inline in the engine or through HashSet)",
+             "one row per group / group order / no cell from another group (group table)", "COUNT, COUNT(DISTINCT), ARRAY_AGG, STRING_AGG (folded inline in the engine or through HashSet); MIN / MAX over values of different types in one group",
              "STDDEV's final sqrt (VARIANCE is checked; the flag only selects sqrt)", "groups of more than 3 rows", "HAVING, transform wrappers"]
 PROPS["C04"] = dict(
-    harnesses=[H(n, "aggregate_execution", AG, shape=sh, tier=t, timeout=900, cost=120) for (n, sh, t) in _fold],
-    functions=_FOLD_FUNCS, bounds=_FOLD_BOUNDS, stubs=["alloc::fmt::format -> empty string"], assumptions=_FOLD_ASSUME, outside=_FOLD_OUT)
+    harnesses=[H(n, "aggregate_execution", AG, shape=sh, tier=t, timeout=900, cost=120) for (n, sh, t) in _fold] +
+              [H(n, "aggregate_execution", AG, shape=sh, tier=t, timeout=600, cost=40) for (n, sh, t) in _minmax] +
+              [H(n, "aggregate_execution", AG, shape=sh, tier=t, timeout=900, cost=100, env_stubbed=True) for (n, sh, t) in _driver],
+    functions=_FOLD_FUNCS, bounds=_FOLD_BOUNDS, stubs=["alloc::fmt::format -> empty string", "<Value as Clone>::clone -> the same code restricted to the seven scalar variants (no array operand)", "chrono::Local::now / offset lookups -> fixed offset (never reached by these folds; avoids a compiler ICE)",
+           "c04_driver_* only: AggregateExecutionEngine::get_group_value / get_group_aggregator -> the one slot of the one group; regex::Regex::new -> Err, NaiveDateTime::parse_from_str, <Value as Display>::fmt (not reached)"], assumptions=_FOLD_ASSUME, outside=_FOLD_OUT)
 PROPS["C15"] = dict(
     harnesses=[H(n, "aggregate_execution", AG, shape=sh + " (as given, reversed and rotated arrival order)", tier="quick" if n in _C15_QUICK else "thorough", timeout=900, cost=120) for (n, sh, t) in _fold
-               if n not in ("c04_fold_percentile_n1", "c04_fold_percentile_all_null")],
-    functions=_FOLD_FUNCS, bounds=_FOLD_BOUNDS, stubs=["alloc::fmt::format -> empty string"], assumptions=_FOLD_ASSUME,
-    outside=_FOLD_OUT + ["split / concatenation law and the union of group sets (group table)", "MIN / MAX / COUNT (inline in update_aggregate)"])
+               if n not in ("c04_fold_percentile_n1", "c04_fold_percentile_all_null")] +
+              [H(n, "aggregate_execution", AG, shape=sh + " (as given, reversed and rotated arrival order)", tier=t, timeout=600, cost=40) for (n, sh, t) in _minmax] +
+              [H(n, "aggregate_execution", AG, shape=sh, tier=t, timeout=900, cost=100, env_stubbed=True) for (n, sh, t) in _driver],
+    functions=_FOLD_FUNCS, bounds=_FOLD_BOUNDS, stubs=["alloc::fmt::format -> empty string", "<Value as Clone>::clone -> the same code restricted to the seven scalar variants (no array operand)", "chrono::Local::now / offset lookups -> fixed offset (never reached by these folds; avoids a compiler ICE)",
+           "c04_driver_* only: AggregateExecutionEngine::get_group_value / get_group_aggregator -> the one slot of the one group; regex::Regex::new -> Err, NaiveDateTime::parse_from_str, <Value as Display>::fmt (not reached)"], assumptions=_FOLD_ASSUME,
+    outside=_FOLD_OUT + ["split / concatenation law and the union of group sets (group table)", "COUNT (inline in update_aggregate)"])
 
 # ------------------------------------------------------------------------------------- C06 / C07
 EE = "execution::execution_engine::verif_kani"
